@@ -314,6 +314,28 @@ def check_op(prog, rep, m, name):
         rep.add('L6', g, name, 'layers: %s' % (norm(arg)[:120] if arg is not None else None), c.lineno, ok,
                 'the layers must be taken as raster[var] for var in data_vars, in the caller\'s data_vars order '
                 '(positions, ranks and value tuples are defined relative to that order)')
+    # ... and `data_vars` is still the caller's list when the layers are taken: the only re-binding allowed is the default
+    # (all layers of the dataset, when none were named) or an order-preserving copy of itself
+    if 'data_vars' in f.params:
+        for n in f.own_nodes():
+            if isinstance(n, ast.Assign) and any(isinstance(t_, ast.Name) and t_.id == 'data_vars' for t_ in n.targets):
+                v = n.value
+                okv = None
+                if isinstance(v, ast.Call) and short(v) in ('list', 'tuple') and len(v.args) == 1:
+                    okv = True                       # list(raster.data_vars) / list(data_vars)
+                elif isinstance(v, (ast.ListComp, ast.GeneratorExp)) and len(v.generators) == 1:
+                    it_ = v.generators[0].iter
+                    okv = isinstance(it_, ast.Name) and it_.id == 'data_vars' and isinstance(v.elt, ast.Name) and \
+                        isinstance(v.generators[0].target, ast.Name) and v.elt.id == v.generators[0].target.id
+                    if not okv and any(isinstance(x, ast.Name) and x.id == 'data_vars' for x in ast.walk(v)):
+                        okv = False                  # the caller's names filtered in some OTHER order
+                elif isinstance(v, ast.Call) and short(v) in ('sorted', 'set', 'unique', 'frozenset') and \
+                        any(isinstance(x, ast.Name) and x.id == 'data_vars' for x in ast.walk(v)):
+                    okv = False
+                if okv is False:
+                    rep.add('L6', f, name, norm(n)[:120], n.lineno, False,
+                            'the layers must be taken in the caller\'s data_vars order (positions, ranks and value tuples are '
+                            'defined relative to that order): this re-orders the list the caller gave')
     if not its:
         # alternative lock-step idioms: zip of ravel()/flatten() (C order by default)
         alt = [c for c in calls(f.node) if short(c) in ('ravel', 'flatten')]
